@@ -151,6 +151,7 @@ impl tower::Service<Request<Bytes>> for AppService {
         let resp_len = header_u64(&req, "resp-len");
         let status = header_u64(&req, "status").unwrap_or(200) as u16;
         let hold = req.headers().contains_key("hold");
+        let block_ms = header_u64(&req, "block-ms").unwrap_or(0);
         let peer_seen = req.peer_id().map(|p| run.node_of(p));
         let origin_seen = req
             .extensions()
@@ -190,7 +191,15 @@ impl tower::Service<Request<Bytes>> for AppService {
             .map(|(k, v)| (k.clone(), v.clone()))
             .collect();
         let req_body = req.into_body();
+        // like most services, the response future owns a clone of the service's state: "every
+        // clone of the user's service has been dropped" then also covers in-flight handlers
+        let token = self.clone();
         Box::pin(async move {
+            let _token = token;
+            if block_ms > 0 {
+                // a handler that does not yield (blocking / CPU-bound section); real-thread modes only
+                std::thread::sleep(Duration::from_millis(block_ms));
+            }
             if hold {
                 futures::future::pending::<()>().await;
             }
@@ -412,6 +421,7 @@ impl Sim {
                 "name": cfg.name,
                 "alt": cfg.alt,
                 "limit": cfg.config.max_concurrent_connections,
+                "shutdown_idle_ms": cfg.config.shutdown_idle_timeout_ms.unwrap_or(60_000),
                 "idle_ms": cfg
                     .config
                     .quic
